@@ -32,7 +32,7 @@ ASSUMPTIONS = [
 ]
 STATIC_SAMPLES = [["set a 1", "set b 2", "pop a", "e[b]=1"]]
 
-KEYS = ["a", "A", "b"]
+KEYS = ["a", "A", "TYPE"]  # TYPE: a substring of the reserved name ENTRYTYPE, but not reserved
 VALS = [1, 2]
 DFLT = "<default>"
 
@@ -247,6 +247,7 @@ def shards(tier):
     out = [("hist", init, i) for init in range(len(PARSED) + 1) for i in range(len(ALLOPS))]
     out += [("eq", i) for i in range(len(EQ_DOCS))]
     out += [("bigeq", n) for n in (bigdocs.SIZES_QUICK if tier == "quick" else bigdocs.SIZES_THOROUGH)]
+    out += [("isolation", 0), ("oddkeys", 0)]
     return out
 
 
@@ -275,8 +276,61 @@ def run_shard(shard, tier, acc):
             rec([init, list(op1)], 1)
     elif shard[0] == "bigeq":
         big_equality(shard[1], acc)
+    elif shard[0] == "isolation":
+        isolation(acc)
+    elif shard[0] == "oddkeys":
+        odd_keys(acc)
     else:
         equality_shard(shard[1], acc)
+
+
+def isolation(acc):
+    """Entries parsed from one document (in every syntactic form: no comma, trailing comma, no fields, one field) and in
+    later parses are independent mappings: operations on one never show in another."""
+    doc = "@m{a}\n@m{b}\n@m{c,}\n@m{d, x = {1}}\n@m{e, x = {1},}\n@m{f}\n"
+    for stack in ({}, {"parse_stack": []}):
+        for victim in range(6):
+            for op in MUT:
+                lib = bibtexparser.parse_string(doc, **stack)
+                ents = lib.entries
+                snap = [[(f.key, canon(f.value)) for f in e.fields] for e in ents]
+                d = {f.key: f.value for f in ents[victim].fields}
+                acc.trace()
+                acc.case(nontrivial_key=("isolation", bool(stack), victim, op))
+                do(ents[victim], d, op)
+                later = bibtexparser.parse_string(doc, **stack).entries
+                after = [[(f.key, canon(f.value)) for f in e.fields] for e in ents]
+                fresh_ = [[(f.key, canon(f.value)) for f in e.fields] for e in later]
+                case = {"isolation": victim, "op": list(op), "stack": sorted(stack)}
+                for i in range(6):
+                    if i != victim and after[i] != snap[i]:
+                        acc.violation({"oracle": "entries_are_independent", "where": "same document"}, {"case": case, "observed": after[i], "expected": snap[i], "entry": i})
+                        break
+                else:
+                    if fresh_ != snap:
+                        acc.violation({"oracle": "entries_are_independent", "where": "later parse"}, {"case": case, "observed": fresh_, "expected": snap})
+
+
+def odd_keys(acc):
+    """Field keys that merely resemble the reserved names (substrings, other case, empty) are ordinary keys."""
+    odd = ["TYPE", "ENTRY", "I", "D", "", "Id", "entrytype", "ENTRYTYPE ", "ID2", "type"]
+    for k in odd:
+        for other in ("title", "ID2"):
+            e = Entry("techreport", "key1", [])
+            d = {}
+            ops = [("set_field", k, "v1"), ("getitem", k), ("in", k), ("get", k), ("setitem", other, "o"), ("getitem", k), ("items",), ("fields_dict",), ("type",), ("id",), ("pop", k), ("getitem", k), ("in", k), ("del", other)]
+            hist = []
+            for op in ops:
+                acc.trace()
+                acc.case(nontrivial_key=("odd", k, other, len(hist)))
+                r, m = do(e, d, op)
+                hist.append(list(op))
+                if r != m or not order_ok(e, d):
+                    acc.violation(
+                        {"oracle": "result_equals_dict", "op": op[0], "key_kind": "resembles a reserved name"},
+                        {"case": {"odd_key": k, "ops": hist}, "observed": repr(r), "expected": repr(m)},
+                    )
+                    break
 
 
 def big_equality(n, acc):
@@ -443,6 +497,10 @@ def equality_shard(i, acc):
 def replay(case, acc):
     if "history" in case:
         step(case["history"], tuple(case["op"]), acc)
+    elif "isolation" in case:
+        isolation(acc)
+    elif "odd_key" in case:
+        odd_keys(acc)
     elif "doc" in case:
         equality_shard(case["doc"], acc)
     else:
